@@ -75,6 +75,8 @@ def run(ctx):
         h = {"kind": "delay", "seed": ctx.seed * 100 + seed}
         fcases += [{"id": "scan%d" % seed, "sql": "SELECT t.id AS id FROM %s t WHERE t.s LIKE 'Row1%%' OR t.s ~ 'w[0-9]$' OR t.s ~* 'ROW3'" % big, "hook": h},
                    {"id": "join%d" % seed, "sql": "SELECT a.id AS id FROM %s a JOIN %s b ON a.k = b.k WHERE a.s ~* 'row1'" % (paths[200], paths[1000]), "hook": h},
+                   {"id": "join2sides%d" % seed, "sql": "SELECT a.id AS id FROM %s a JOIN %s b ON a.k = b.k WHERE a.s ~ 'Row1$' AND b.s ~ '^Row[0-9]$' AND a.s LIKE 'Row%%' AND b.s ~* 'ROW'" % (paths[1000], paths[1000]), "hook": h},
+                   {"id": "join3%d" % seed, "sql": "SELECT a.id AS id FROM (SELECT x.id AS id, x.k AS k FROM %s x WHERE x.s ~ 'w1[0-2]?$') a JOIN (SELECT y.id AS id, y.k AS k FROM %s y WHERE y.s ~ 'w[3-5]$') b ON a.k = b.k" % (paths[1000], big), "hook": h},
                    {"id": "limitjoin%d" % seed, "sql": "SELECT a.id AS id FROM %s a JOIN %s b ON a.k = b.k LIMIT 5" % (paths[1000], paths[1000]), "hook": h},
                    {"id": "limit%d" % seed, "sql": "SELECT t.id AS id FROM %s t LIMIT 70" % big, "hook": h},
                    {"id": "fail%d" % seed, "sql": "SELECT t.id AS id FROM %s t JOIN %s u ON t.id = u.id" % (bad, paths[200]), "hook": h},
@@ -95,7 +97,7 @@ def run(ctx):
     cli = climod.Cli(ctx, race=True)
     jobs = []
     for procs in ("1", "2", "16"):
-        for c in fcases[:7]:
+        for c in fcases[:9]:
             jobs.append({"args": [c["sql"], "-o", "json"], "cwd": d, "env": {"GOMAXPROCS": procs, "GORACE": "halt_on_error=0 exitcode=0"}, "timeout": 120})
         data = "".join(json.dumps({"id": i}) + "\n" for i in range(2000)).encode()
         jobs.append({"args": ["SELECT t.id AS id FROM stdin.json t LIMIT 3", "-o", "json"], "cwd": d, "stdin": data, "env": {"GOMAXPROCS": procs, "GORACE": "halt_on_error=0 exitcode=0"}, "timeout": 120})
